@@ -41,6 +41,19 @@ Qed.
 (* ================= FindFreeCANMsgIndex ================= *)
 Lemma first_idx_bounds f l : 0 <= first_idx f l <= Z.of_nat (length l).
 Proof. induction l as [|s l IH]; cbn [first_idx length]; [lia|]. destruct (f s); lia. Qed.
+Lemma first_idx_full f : forall l, first_idx f l = Z.of_nat (length l) -> Forall (fun s => f s = false) l.
+Proof.
+  induction l as [|s l IH]; intros H; [constructor|]. cbn [first_idx length] in H. destruct (f s) eqn:E; [lia|].
+  constructor; [exact E|apply IH; lia].
+Qed.
+Lemma first_idx_ext f h : forall l, Forall (fun s => f s = h s) l -> first_idx f l = first_idx h l.
+Proof. induction 1 as [|s l E _ IH]; [reflexivity|]. cbn [first_idx]. rewrite E, IH. reflexivity. Qed.
+Definition usable (pgn src dst:Z) (s:slot) : bool := s_free s || ((s_pgn s =? pgn) && (s_src s =? src) && (s_dst s =? dst) && Bool.eqb (s_tp s) true).
+Lemma ff_key_first pgn src dst : forall slots i, ff_key slots pgn src dst true i = i + first_idx (holds pgn src dst) slots.
+Proof.
+  induction slots as [|s slots IH]; intros i; cbn [ff_key first_idx]; [lia|].
+  fold (holds pgn src dst s). destruct (holds pgn src dst s); [lia|]. rewrite IH. lia.
+Qed.
 Lemma ff_scan_fst pgn src dst : forall slots i oi ot,
   fst (fst (ff_scan slots pgn src dst true i oi ot)) = i + first_idx (usable pgn src dst) slots.
 Proof.
@@ -62,31 +75,50 @@ Proof.
 Qed.
 Lemma now32_range r : 0 <= now32 r < M32.
 Proof. unfold now32, u32. apply Z.mod_pos_bound. reflexivity. Qed.
-
-Lemma find_free_found r pgn src dst : first_idx (usable pgn src dst) (r_slots r) < nslots r ->
-  find_free_slot r pgn src dst true = (r_slots r, first_idx (usable pgn src dst) (r_slots r)).
+Lemma usable_free pgn src dst slots : first_idx (holds pgn src dst) slots = Z.of_nat (length slots) ->
+  first_idx (usable pgn src dst) slots = first_idx (fun s => s_free s) slots.
 Proof.
-  intros H. unfold find_free_slot. pose proof (ff_scan_fst pgn src dst (r_slots r) 0 (nslots r) (now32 r)) as F.
-  destruct (ff_scan (r_slots r) pgn src dst true 0 (nslots r) (now32 r)) as [[i oi] ot]. cbn [fst] in F. rewrite Z.add_0_l in F. subst i.
-  destruct (Z.eqb_spec (first_idx (usable pgn src dst) (r_slots r)) (nslots r)); [lia|]. reflexivity.
+  intros H. apply first_idx_ext. apply first_idx_full in H. revert H. apply Forall_impl. intros s Hs.
+  unfold usable, holds in *. destruct (s_free s); [reflexivity|]. cbn [negb andb orb] in *. exact Hs.
 Qed.
-Lemma find_free_none r pgn src dst : first_idx (usable pgn src dst) (r_slots r) = nslots r ->
+
+Lemma slot_for_bounds pgn src dst slots : 0 <= slot_for pgn src dst slots <= Z.of_nat (length slots).
+Proof.
+  unfold slot_for. cbv zeta. pose proof (first_idx_bounds (holds pgn src dst) slots). pose proof (first_idx_bounds (fun s => s_free s) slots).
+  destruct (_ <? _); lia.
+Qed.
+Lemma find_free_found r pgn src dst : slot_for pgn src dst (r_slots r) < nslots r ->
+  find_free_slot r pgn src dst true = (r_slots r, slot_for pgn src dst (r_slots r)).
+Proof.
+  unfold slot_for, find_free_slot, nslots. cbv zeta. rewrite ff_key_first, Z.add_0_l.
+  pose proof (first_idx_bounds (holds pgn src dst) (r_slots r)) as KB.
+  destruct (Z.ltb_spec (first_idx (holds pgn src dst) (r_slots r)) (Z.of_nat (length (r_slots r)))) as [Hk|Hk]; [reflexivity|].
+  intros Hs. pose proof (ff_scan_fst pgn src dst (r_slots r) 0 (Z.of_nat (length (r_slots r))) (now32 r)) as F.
+  destruct (ff_scan (r_slots r) pgn src dst true 0 (Z.of_nat (length (r_slots r))) (now32 r)) as [[i oi] ot]. cbn [fst] in F. rewrite Z.add_0_l in F. subst i.
+  rewrite usable_free by lia.
+  destruct (Z.eqb_spec (first_idx (fun s => s_free s) (r_slots r)) (Z.of_nat (length (r_slots r)))); [lia|]. reflexivity.
+Qed.
+Lemma find_free_none r pgn src dst : slot_for pgn src dst (r_slots r) = nslots r ->
   Forall (fun s => has_elapsed (s_time s) 100 (now32 r) = false) (r_slots r) ->
   find_free_slot r pgn src dst true = (r_slots r, nslots r).
 Proof.
-  intros H HF. unfold find_free_slot. pose proof (ff_scan_fst pgn src dst (r_slots r) 0 (nslots r) (now32 r)) as F.
-  pose proof (ff_scan_time pgn src dst (fun t => has_elapsed t 100 (now32 r) = false) (r_slots r) 0 (nslots r) (now32 r) (not_elapsed_now _ (now32_range r)) HF) as T.
-  destruct (ff_scan (r_slots r) pgn src dst true 0 (nslots r) (now32 r)) as [[i oi] ot]. cbn [fst snd] in F, T. rewrite Z.add_0_l in F. subst i.
-  rewrite H, Z.eqb_refl. change c_Max_N2kMsgBuf_Time with 100. rewrite T. reflexivity.
+  unfold slot_for, find_free_slot, nslots. cbv zeta. rewrite ff_key_first, Z.add_0_l.
+  pose proof (first_idx_bounds (holds pgn src dst) (r_slots r)) as KB.
+  destruct (Z.ltb_spec (first_idx (holds pgn src dst) (r_slots r)) (Z.of_nat (length (r_slots r)))) as [Hk|Hk]; [lia|].
+  intros Hs HF. pose proof (ff_scan_fst pgn src dst (r_slots r) 0 (Z.of_nat (length (r_slots r))) (now32 r)) as F.
+  pose proof (ff_scan_time pgn src dst (fun t => has_elapsed t 100 (now32 r) = false) (r_slots r) 0 (Z.of_nat (length (r_slots r))) (now32 r) (not_elapsed_now _ (now32_range r)) HF) as T.
+  destruct (ff_scan (r_slots r) pgn src dst true 0 (Z.of_nat (length (r_slots r))) (now32 r)) as [[i oi] ot]. cbn [fst snd] in F, T. rewrite Z.add_0_l in F. subst i.
+  rewrite usable_free by lia. rewrite Hs, Z.eqb_refl. change c_Max_N2kMsgBuf_Time with 100. rewrite T. reflexivity.
 Qed.
 
 (* ================= RTS ================= *)
-Lemma handle_rts r src dst s0 s1 packets maxp p0 p1 p2 :
-  handle_tp r 60416 src dst 8 [16; s0; s1; packets; maxp; p0; p1; p2] =
-  let mx := nslots r in
-  let idev := find_source_device r dst in
+Lemma handle_rts r0 src dst s0 s1 packets maxp p0 p1 p2 :
+  handle_tp r0 60416 src dst 8 [16; s0; s1; packets; maxp; p0; p1; p2] =
+  let mx := nslots r0 in
+  let idev := find_source_device r0 dst in
   let tpgn := p0 + 256 * p1 + 65536 * p2 in
   let nbytes := s0 + 256 * s1 in
+  let r := with_slots r0 (release tpgn src dst (r_slots r0)) in
   let '(slots1, idx) := find_free_slot r tpgn src dst true in
   let r1 := with_slots r slots1 in
   if idx =? mx then
@@ -107,30 +139,36 @@ Lemma handle_rts r src dst s0 s1 packets maxp p0 p1 p2 :
       if idev >=? 0 then let '(r3, ev) := send_tpcm_abort r2 tpgn src idev c_TP_CM_AbortBusy in (true, r3, ev, mx) else (true, r2, [], mx).
 Proof. reflexivity. Qed.
 
-Lemma zset_len_slots (l:list slot) i v : Z.of_nat (length (zset l i v)) = Z.of_nat (length l).
-Proof. rewrite zset_length. reflexivity. Qed.
+Lemma release_length pgn src dst slots : length (release pgn src dst slots) = length slots.
+Proof. apply map_length. Qed.
 
 Theorem tp_rts_answered : tp_rts_answered_stmt.
 Proof.
-  unfold tp_rts_answered_stmt. intros r i src dst size packets maxp pgn R A Hsrc Hsize Hpk Hmaxp Hpgn. cbv zeta.
-  pose proof (first_idx_bounds (usable pgn src dst) (r_slots r)) as FB.
+  unfold tp_rts_answered_stmt. intros r0 i src dst size packets maxp pgn R A Hsrc Hsize Hpk Hmaxp Hpgn. cbv zeta.
+  set (slots := release pgn src dst (r_slots r0)). set (r := with_slots r0 slots).
+  assert (NS: nslots r = nslots r0) by (unfold r, slots, nslots; cbn [with_slots r_slots]; rewrite release_length; reflexivity).
+  assert (R': tp_ready (rn r) i) by exact R. assert (A': addressed r dst i) by exact A.
   pose proof A as (Hi & Ha & Hr & _).
-  assert (DS: dev_src r i = dst) by exact Ha.
-  destruct (check_known (n_pgn (rn r)) pgn) as [[known sys] fast] eqn:CK.
+  destruct (check_known (n_pgn (rn r0)) pgn) as [[known sys] fast] eqn:CK.
+  assert (CK': check_known (n_pgn (rn r)) pgn = (known, sys, fast)) by exact CK.
   assert (PB: b0 pgn + 256 * b1 pgn + 65536 * b2 pgn = pgn) by (change (2^24) with 16777216 in Hpgn; unfold b0, b1, b2; dm).
+  assert (SF: slot_for pgn src dst slots = slot_for pgn src dst (r_slots r)) by reflexivity.
+  pose proof (slot_for_bounds pgn src dst slots) as SB.
+  assert (NL: nslots r0 = Z.of_nat (length slots)) by (unfold slots, nslots; rewrite release_length; reflexivity).
   split.
-  - intros Hlt. rewrite handle_rts. cbv zeta. rewrite (addressed_find r dst i A), PB, size_bytes by exact Hsize.
-    rewrite find_free_found by exact Hlt. set (idx := first_idx (usable pgn src dst) (r_slots r)) in *.
-    rewrite with_slots_id. destruct (Z.eqb_spec idx (nslots r)); [lia|]. rewrite CK.
+  - intros Hlt. rewrite handle_rts. cbv zeta. rewrite (addressed_find r0 dst i A), PB, size_bytes by exact Hsize. fold slots. fold r.
+    rewrite find_free_found by (rewrite <- SF, NS; exact Hlt). rewrite <- SF. set (idx := slot_for pgn src dst slots) in *.
+    rewrite with_slots_id. destruct (Z.eqb_spec idx (nslots r0)); [lia|]. rewrite CK'.
     rewrite chk_slot_ok by lia. destruct (Z.geb_spec i 0); [|lia]. change c_MaxDataLen with 223. unfold get_slot.
-    destruct ((size <=? 223) && (known || negb (c_only_known (r_cfg r)))).
+    change (c_only_known (r_cfg r)) with (c_only_known (r_cfg r0)).
+    destruct ((size <=? 223) && (known || negb (c_only_known (r_cfg r0)))).
     + unfold set_slot. rewrite chk_slot_ok by lia.
-      rewrite send_cts_ok; [|exact R|lia|lia]. unfold dev_src. cbn [with_slots rn]. rewrite Ha. reflexivity.
+      rewrite send_cts_ok; [|exact R'|lia|lia]. match goal with |- context [dev_src ?x i] => change (dev_src x i) with (d_src (get_dev (rn r0) i)) end. rewrite Ha. reflexivity.
     + unfold set_slot. rewrite chk_slot_ok by lia.
-      rewrite send_abort_ok; [|exact R|lia]. unfold dev_src. cbn [with_slots rn]. rewrite Ha. reflexivity.
-  - intros Heq HF. rewrite handle_rts. cbv zeta. rewrite (addressed_find r dst i A), PB.
-    rewrite find_free_none by assumption. rewrite with_slots_id, Z.eqb_refl. destruct (Z.geb_spec i 0); [|lia].
-    rewrite send_abort_ok; [|exact R|lia]. rewrite DS. reflexivity.
+      rewrite send_abort_ok; [|exact R'|lia]. match goal with |- context [dev_src ?x i] => change (dev_src x i) with (d_src (get_dev (rn r0) i)) end. rewrite Ha. reflexivity.
+  - intros Heq HF. rewrite handle_rts. cbv zeta. rewrite (addressed_find r0 dst i A), PB. fold slots. fold r.
+    rewrite find_free_none; [|rewrite <- SF, NS; exact Heq|exact HF]. rewrite with_slots_id, NS, Z.eqb_refl. destruct (Z.geb_spec i 0); [|lia].
+    rewrite send_abort_ok; [|exact R'|lia]. match goal with |- context [dev_src ?x i] => change (dev_src x i) with (d_src (get_dev (rn r0) i)) end. rewrite Ha. reflexivity.
 Qed.
 Print Assumptions tp_rts_answered.
 
@@ -405,3 +443,118 @@ Proof.
   - rewrite R3. apply (ignored_after r0 idx src dst (free_slot s2)); [exact Hidx|exact Only|reflexivity].
 Qed.
 Print Assumptions tp_delivery_once.
+
+(* ================= a new session replaces the one its originator gave up ================= *)
+Lemma first_idx_at f : forall (l:list slot) k, (k < length l)%nat -> f (nth k l slot0) = true -> (forall j, (j < k)%nat -> f (nth j l slot0) = false) ->
+  first_idx f l = Z.of_nat k.
+Proof.
+  induction l as [|s l IH]; intros k Hk Hf Hb; [cbn in Hk; lia|]. cbn [first_idx]. destruct k as [|k].
+  - cbn [nth] in Hf. rewrite Hf. reflexivity.
+  - pose proof (Hb 0%nat ltac:(lia)) as H0. cbn [nth] in H0. rewrite H0. rewrite (IH k); [lia|cbn in Hk; lia|exact Hf|].
+    intros j Hj. apply (Hb (S j)). lia.
+Qed.
+Lemma first_idx_spec f : forall (l:list slot), first_idx f l < Z.of_nat (length l) ->
+  f (nth (Z.to_nat (first_idx f l)) l slot0) = true /\ forall j, (j < Z.to_nat (first_idx f l))%nat -> f (nth j l slot0) = false.
+Proof.
+  induction l as [|s l IH]; intros H; [cbn in H; lia|]. cbn [first_idx length] in *. destruct (f s) eqn:E.
+  - cbn [Z.to_nat nth]. split; [exact E|intros j Hj; lia].
+  - pose proof (first_idx_bounds f l) as B. destruct (IH ltac:(lia)) as [I1 I2].
+    replace (Z.to_nat (1 + first_idx f l)) with (S (Z.to_nat (first_idx f l))) by lia. cbn [nth]. split; [exact I1|].
+    intros [|j] Hj; [exact E|]. cbn [nth]. apply I2. lia.
+Qed.
+Lemma first_idx_le f : forall (l:list slot) k, (k < length l)%nat -> f (nth k l slot0) = true -> first_idx f l <= Z.of_nat k.
+Proof.
+  induction l as [|s l IH]; intros k Hk Hf; [cbn in Hk; lia|]. cbn [first_idx]. destruct (f s) eqn:E; [lia|].
+  destruct k as [|k]; [cbn [nth] in Hf; congruence|]. cbn [nth] in Hf. specialize (IH k ltac:(cbn in Hk; lia) Hf). lia.
+Qed.
+Lemma set_nth_Forall' {A} (P:A -> Prop) : forall (l:list A) i v, Forall P l -> P v -> Forall P (set_nth l i v).
+Proof. induction l as [|x l IH]; intros [|i] v HF Hv; cbn [set_nth]; try constructor; inversion HF; subst; auto. Qed.
+Lemma release_nth pgn src dst slots j : nth j (release pgn src dst slots) slot0 = (fun s => if stale pgn src dst s then free_slot s else s) (nth j slots slot0).
+Proof. unfold release. change slot0 with ((fun s => if stale pgn src dst s then free_slot s else s) slot0) at 1. apply map_nth. Qed.
+Lemma release_free_not_ready pgn src dst slots : Forall (fun s => s_free s = true -> s_ready s = false) slots ->
+  Forall (fun s => s_free s = true -> s_ready s = false) (release pgn src dst slots).
+Proof.
+  intros H. unfold release. apply Forall_map. revert H. apply Forall_impl. intros s Hs. destruct (stale pgn src dst s); [reflexivity|exact Hs].
+Qed.
+
+Theorem tp_new_session_replaces : tp_new_session_replaces_stmt.
+Proof.
+  unfold tp_new_session_replaces_stmt. intros r i idxA src dst pgnA sizeA k data tpmaxA tpreqA pgnB sizeB maxp Ses Only FNR R A Hsrc Hne HpgnB HsizeB Hmaxp Hknown. set (g := grant_of (npackets sizeB)).
+  destruct Ses as (Hidx & Hfirst & S2). cbv zeta in S2.
+  destruct S2 as (Sfree & Sready & Stp & Spri & Spgn & Ssrc & Sdst & Slen & Sdata & Slast & Stpmax & Stpreq & Hsize & Hk & Hdl & Htpreq & Htpmax).
+  pose proof (npackets_bounds _ HsizeB) as NB. unfold nslots in Hidx.
+  set (slots := r_slots r) in *. set (slots' := release pgnB src dst slots). set (a := Z.to_nat idxA).
+  assert (La: (a < length slots)%nat) by (unfold a; lia).
+  assert (Len': length slots' = length slots) by apply release_length.
+  unfold znth in *. fold a in Sfree, Sready, Stp, Spri, Spgn, Ssrc, Sdst, Slen, Sdata, Slast, Stpmax, Stpreq.
+  (* the slots after the release *)
+  assert (NA: nth a slots' slot0 = free_slot (nth a slots slot0)).
+  { unfold slots'. rewrite release_nth. cbv beta. unfold stale. rewrite Sfree, Stp, Ssrc, Sdst, !Z.eqb_refl. cbn [negb andb].
+    rewrite Spgn. destruct (Z.eqb_spec pgnA pgnB); [congruence|]. reflexivity. }
+  assert (NO: forall j, (j < length slots)%nat -> j <> a -> nth j slots' slot0 = nth j slots slot0 /\ tp_match src dst (nth j slots slot0) = false).
+  { intros j Hj Hja. pose proof (Only (Z.of_nat j) ltac:(unfold nslots; fold slots; lia) ltac:(unfold a in Hja; lia)) as O. cbv zeta in O. unfold znth in O. rewrite Nat2Z.id in O. fold slots in O.
+    split; [|exact O]. unfold slots'. rewrite release_nth. cbv beta. unfold stale.
+    destruct (negb (s_free (nth j slots slot0))); [|reflexivity]. destruct (s_tp (nth j slots slot0)); [|reflexivity]. cbn [andb] in *.
+    destruct (s_dst (nth j slots slot0) =? dst); [|rewrite andb_false_r; reflexivity]. cbn [andb] in O. rewrite O. reflexivity. }
+  assert (TM': forall j, (j < length slots)%nat -> j <> a -> tp_match src dst (nth j slots' slot0) = false).
+  { intros j Hj Hja. destruct (NO j Hj Hja) as [E1 E2]. rewrite E1. exact E2. }
+  (* no slot holds the new session; the first free slot is taken *)
+  assert (HN: first_idx (holds pgnB src dst) slots' = Z.of_nat (length slots')).
+  { apply first_idx_none. intros j Hj. rewrite Len' in Hj. destruct (Nat.eq_dec j a) as [->|Hja].
+    - rewrite NA. reflexivity.
+    - pose proof (TM' j Hj Hja) as T. unfold tp_match, holds in *. destruct (negb (s_free (nth j slots' slot0))); [|reflexivity]. cbn [andb] in *.
+      destruct (s_pgn (nth j slots' slot0) =? pgnB); [|reflexivity]. cbn [andb].
+      destruct (s_src (nth j slots' slot0) =? src); [|reflexivity]. destruct (s_dst (nth j slots' slot0) =? dst); [|reflexivity]. cbn [andb] in *.
+      destruct (s_tp (nth j slots' slot0)); [discriminate|reflexivity]. }
+  set (idxB := first_idx (fun s => s_free s) slots').
+  assert (SF: slot_for pgnB src dst slots' = idxB) by (unfold slot_for; cbv zeta; rewrite HN; destruct (Z.ltb_spec (Z.of_nat (length slots')) (Z.of_nat (length slots'))); [lia|reflexivity]).
+  assert (LB: idxB <= Z.of_nat a) by (apply first_idx_le; [lia|rewrite NA; reflexivity]).
+  pose proof (first_idx_bounds (fun s => s_free s) slots') as BB. fold idxB in BB.
+  destruct (first_idx_spec (fun s => s_free s) slots' ltac:(fold idxB; lia)) as [FB1 FB2]. fold idxB in FB1, FB2. set (b := Z.to_nat idxB) in *.
+  assert (Lb: (b < length slots)%nat) by (unfold b; lia).
+  (* the RTS *)
+  pose proof (tp_rts_answered r i src dst sizeB (npackets sizeB) maxp pgnB R A Hsrc ltac:(lia) ltac:(lia) Hmaxp HpgnB) as T. cbv zeta in T.
+  fold slots in T. fold slots' in T. rewrite SF in T.
+  destruct (check_known (n_pgn (rn r)) pgnB) as [[known sys] fast]. cbn [fst snd] in Hknown |- *.
+  destruct T as [T _]. specialize (T ltac:(unfold nslots; fold slots; lia)). cbv zeta in T.
+  assert (ACC: (sizeB <=? 223) && (known || negb (c_only_known (r_cfg r))) = true).
+  { destruct (Z.leb_spec sizeB 223); [|lia]. destruct Hknown as [-> | ->]; [reflexivity|apply orb_true_r]. }
+  rewrite ACC in T. fold g in T.
+  set (sess := session_slot (znth slots' idxB slot0) known sys pgnB src dst sizeB (now32 r) (npackets sizeB) g) in *.
+  exists (with_slots r (zset slots' idxB sess)), idxB.
+  assert (Rdy: s_ready (nth b slots' slot0) = false).
+  { pose proof (release_free_not_ready pgnB src dst slots FNR) as F. fold slots' in F. rewrite Forall_forall in F. apply F; [apply nth_In; lia|exact FB1]. }
+  assert (NZ: forall j, nth j (zset slots' idxB sess) slot0 = if (j =? b)%nat then sess else nth j slots' slot0).
+  { intros j. unfold zset. fold b. rewrite nth_set_nth'. destruct (Nat.ltb_spec b (length slots')); [|lia]. rewrite andb_true_r. reflexivity. }
+  assert (TS: tp_match src dst sess = true) by (unfold tp_match, sess; cbn [session_slot s_free s_tp s_dst s_src]; rewrite !Z.eqb_refl; reflexivity).
+  split; [exact T|]. split; [|split; [|split; [|split; [|split]]]].
+  - unfold rx_session, nslots. cbn [with_slots r_slots]. rewrite zset_length, Len'.
+    split; [lia|]. split.
+    + transitivity (Z.of_nat b); [|unfold b; lia]. apply first_idx_at.
+      * rewrite zset_length. lia.
+      * rewrite NZ, Nat.eqb_refl. exact TS.
+      * intros j Hj. rewrite NZ. destruct (Nat.eqb_spec j b); [lia|].
+        destruct (Nat.eq_dec j a) as [->|Hja]; [pose proof (FB2 a Hj) as X; rewrite NA in X; discriminate X|].
+        apply TM'; [lia|exact Hja].
+    + unfold znth. fold b. rewrite NZ, Nat.eqb_refl. unfold sess. cbn [session_slot s_free s_ready s_tp s_pri s_pgn s_src s_dst s_len s_data s_last s_tpmax s_tpreq length].
+      unfold znth. fold b. repeat split; try reflexivity; try exact Rdy; try (unfold g, grant_of; lia); try lia.
+  - left. split; [unfold g, grant_of; lia|split; [exact R|exact A]].
+  - intros j Hj Hjb. cbv zeta. unfold nslots in Hj. cbn [with_slots r_slots] in *. rewrite zset_length, Len' in Hj. unfold znth. rewrite NZ.
+    destruct (Nat.eqb_spec (Z.to_nat j) b); [unfold b in *; lia|].
+    destruct (Nat.eq_dec (Z.to_nat j) a) as [E|Hja]; [rewrite E, NA; reflexivity|]. apply (TM' (Z.to_nat j)); [lia|exact Hja].
+  - unfold free_not_ready. cbn [with_slots r_slots]. unfold zset. apply set_nth_Forall'; [apply release_free_not_ready; exact FNR|]. intros X. discriminate X.
+  - unfold nslots. cbn [with_slots r_slots]. rewrite zset_length, Len'. reflexivity.
+  - cbn [with_slots r_slots]. unfold znth. fold b. rewrite NZ, Nat.eqb_refl. reflexivity.
+Qed.
+Print Assumptions tp_new_session_replaces.
+
+Theorem tp_later_transfer : tp_later_transfer_stmt.
+Proof.
+  unfold tp_later_transfer_stmt. intros steps r i idxA src dst pgnA sizeA k data tpmaxA tpreqA pgnB sizeB maxp Ses Only FNR R A Hsrc Hne HpgnB HsizeB Hmaxp Hknown Hlen HF. set (g := grant_of (npackets sizeB)).
+  destruct (tp_new_session_replaces r i idxA src dst pgnA sizeA k data tpmaxA tpreqA pgnB sizeB maxp Ses Only FNR R A Hsrc Hne HpgnB HsizeB Hmaxp Hknown)
+    as (r' & idxB & E & Ses' & Ans' & _). fold g in E, Ses', Ans'. rewrite E.
+  pose proof (tp_receive_delivers steps r' idxB src dst pgnB sizeB (npackets sizeB) g i Ses' Ans' Hsrc HpgnB Hlen HF) as D.
+  destruct (feed_dt r' src dst 1 steps) as [[r2 evs] ix]. destruct D as (D1 & D2 & D3 & D4). subst ix.
+  repeat split; assumption.
+Qed.
+Print Assumptions tp_later_transfer.
